@@ -24,6 +24,50 @@ FILE_FIELDS = {
     ("nomt::seglog::SegmentedLog", "root_dir_fd"): "dir",  # Rollback::read(.., db_dir_fd, ..)
     ("nomt::store::flock::Flock", "lock_fd"): "lock",  # Flock::lock join(".lock")
 }
+
+
+def effective_fields(facts):
+    """FILE_FIELDS with private-field renames followed: a listed field that no longer exists is matched to the one
+    File-typed field of the same struct that the table does not list (unambiguous cases only; otherwise the check is broken)"""
+    if getattr(facts, "_file_fields", None) is not None:
+        return facts._file_fields
+    eff, names = {}, {}
+    by_owner = {}
+    for (o, f), cls in FILE_FIELDS.items():
+        by_owner.setdefault(o, []).append((f, cls))
+    for o, lst in by_owner.items():
+        adt = facts.adts.get(o)
+        if adt is None:
+            # the owner type itself is gone: the events that relied on it become unclassified and fail closed there
+            for f, cls in lst:
+                eff[(o, f)] = cls
+                names[(o, f)] = f
+            continue
+        fields = [(x["n"], x["ty"]) for v in adt.get("variants", []) for x in v.get("fields", [])]
+        have = {n for n, _ in fields}
+        missing = [(f, cls) for f, cls in lst if f not in have]
+        listed = {f for f, _ in lst}
+        cands = [n for n, ty in fields if n not in listed and ("std::fs::File" in ty or "RawFd" in ty or "OwnedFd" in ty)]
+        for f, cls in lst:
+            if f in have:
+                eff[(o, f)] = cls
+                names[(o, f)] = f
+        if missing:
+            if len(missing) == 1 and len(cands) == 1:
+                eff[(o, cands[0])] = missing[0][1]
+                names[(o, missing[0][0])] = cands[0]
+            else:
+                raise CheckBroken("ANCHOR-MISSING file field(s) %s of %s (File-typed fields not in the table: %s)" % ([m[0] for m in missing], o, cands))
+    facts._file_fields = eff
+    facts._file_field_names = names
+    return eff
+
+
+def field_name(facts, owner, table_field):
+    effective_fields(facts)
+    return facts._file_field_names.get((owner, table_field), table_field)
+
+
 REFINE = {"leaf_store": "ln", "bbn_store": "bbn", "ln_fd": "ln", "bbn_fd": "bbn", "ln_fsync": "ln", "bbn_fsync": "bbn"}
 
 PRIMS = {
@@ -75,7 +119,7 @@ class Event:
         return "%s(%s) in %s at %s via %s" % (self.kind, self.cls, self.body.id, self.site, self.prim)
 
 
-def _literal_of_path(facts, body, op):
+def _literal_of_path(facts, body, op, ctx=None):
     """class of a path operand: Path::join(.., "literal") / segment filename / directory itself"""
     out = set()
     for r in xtrace(facts, body, op, depth=5) + trace(body, op):
@@ -93,6 +137,13 @@ def _literal_of_path(facts, body, op):
                                 out.add("other:" + m.group(1))
                         elif rr.kind == "call" and "segment_filename::format" in rr.what:
                             out.add("seglog")
+                        elif rr.kind == "param" and ctx is not None and (r.body or body.id) == body.id and isinstance(ctx[1], dict) and 0 <= rr.what - 1 < len(ctx[1].get("args", [])) and ctx[0] in facts.bodies:
+                            # join(dir, <param>) in a helper that was entered from ONE call site: bind to that site's argument
+                            for r3 in xtrace(facts, facts.bodies[ctx[0]], ctx[1]["args"][rr.what - 1], depth=4):
+                                if r3.kind == "const":
+                                    m = re.search(r'"([^"]*)"', str(r3.what))
+                                    if m and m.group(1) in LITERAL_CLASS:
+                                        out.add(LITERAL_CLASS[m.group(1)])
                         elif rr.kind in ("param", "upvar"):
                             # join(dir, <param>): resolved through callers by xtrace on that arg
                             for r3 in xtrace(facts, facts.bodies[r.body] if r.body in facts.bodies else body, t["args"][1], depth=4):
@@ -113,13 +164,14 @@ def classify_file_operand(facts, body, op, depth=6):
     """set of classes a File / &File / Arc<File> / RawFd operand may denote"""
     out = set()
     why = []
+    eff = effective_fields(facts)
     for r in xtrace(facts, body, op, depth=depth):
         cls = None
         # field based
         for i in range(len(r.path) - 1, -1, -1):
             f, o = r.path[i]
-            if (o, f) in FILE_FIELDS:
-                cls = FILE_FIELDS[(o, f)]
+            if (o, f) in eff:
+                cls = eff[(o, f)]
                 if cls == "lnbbn":
                     for (f2, o2) in r.path[:i]:
                         if f2 in REFINE:
@@ -134,7 +186,7 @@ def classify_file_operand(facts, body, op, depth=6):
                 t = r.obj
                 parg = t["args"][1] if c == "std::fs::OpenOptions::open" else t["args"][0]
                 b2 = facts.bodies.get(r.body, body)
-                lits = _literal_of_path(facts, b2, parg)
+                lits = _literal_of_path(facts, b2, parg, ctx=r.ctx)
                 for l in lits:
                     out.add(l)
                     why.append("%s(%s)" % (c.split("::")[-1], l))
